@@ -291,6 +291,23 @@ def enum_items(tier):
         ("declare-later-use-in-fn", "function g(){ return __s([E.A, E[0]]); }\nenum E { A }", 'function g(){ return __s([E.A, E[0]]); }\nvar E;\n(function (E) {\n E[E["A"] = 0] = "A";\n})(E || (E = {}));',
          [("g", "g()")]),
     ]
+    IIFE = lambda n, body: "let %s;\n(function (%s) {\n%s\n})(%s || (%s = {}));" % (n, n, body, n, n)
+    extras += [
+        ("sibling-blocks", "var r: any[] = [];\n{ enum E { A = 1 } r.push(E.A, E[1], Object.keys(E).length); }\n{ enum E { B = 2 } r.push(E.B, E[2], (E as any).A, Object.keys(E).length); }",
+         "var r = [];\n{ " + IIFE("E", ' E[E["A"] = 1] = "A";') + " r.push(E.A, E[1], Object.keys(E).length); }\n{ " + IIFE("E", ' E[E["B"] = 2] = "B";') + " r.push(E.B, E[2], E.A, Object.keys(E).length); }", [("v", "__s(r)")]),
+        ("if-else-arms", "var r: any[] = [];\nfor (const c of [true, false]) { if (c) { enum E { A = 1 } r.push(E.A, Object.keys(E).length); } else { enum E { A = 5, B } r.push(E.A, E.B, Object.keys(E).length); } }",
+         "var r = [];\nfor (const c of [true, false]) { if (c) { " + IIFE("E", ' E[E["A"] = 1] = "A";') + " r.push(E.A, Object.keys(E).length); } else { " + IIFE("E", ' E[E["A"] = 5] = "A";\n E[E["B"] = 6] = "B";') + " r.push(E.A, E.B, Object.keys(E).length); } }", [("v", "__s(r)")]),
+        ("sibling-blocks-under-outer-enum", "enum E { Low, High }\nvar r: any[] = [];\n{ enum E { A = 7 } r.push(E.A, (E as any).Low); }\n{ enum E { B = 0 } r.push(E.B, E[0], (E as any).A); }\nr.push(E.Low, E.High, E[0], Object.keys(E).length);",
+         "var E;\n(function (E) {\n E[E[\"Low\"] = 0] = \"Low\";\n E[E[\"High\"] = 1] = \"High\";\n})(E || (E = {}));\nvar r = [];\n{ " + IIFE("E", ' E[E["A"] = 7] = "A";') + " r.push(E.A, E.Low); }\n{ " + IIFE("E", ' E[E["B"] = 0] = "B";') + " r.push(E.B, E[0], E.A); }\nr.push(E.Low, E.High, E[0], Object.keys(E).length);", [("v", "__s(r)")]),
+        ("merge-inside-second-sibling-block", "var r: any[] = [];\n{ enum E { A = 1 } r.push(Object.keys(E).length); }\n{ enum E { B = 2 } enum E { C = 3 } r.push(E.B, E.C, (E as any).A, Object.keys(E).length); }",
+         "var r = [];\n{ " + IIFE("E", ' E[E["A"] = 1] = "A";') + " r.push(Object.keys(E).length); }\n{ let E;\n(function (E) {\n E[E[\"B\"] = 2] = \"B\";\n})(E || (E = {}));\n(function (E) {\n E[E[\"C\"] = 3] = \"C\";\n})(E || (E = {})); r.push(E.B, E.C, E.A, Object.keys(E).length); }", [("v", "__s(r)")]),
+        ("loop-body-enum", "var r: any[] = [];\nfor (let i = 0; i < 3; i++) { enum E { A = i * 2, B = A + 1 } r.push(E.A, E.B, Object.keys(E).length); }",
+         "var r = [];\nfor (let i = 0; i < 3; i++) { " + IIFE("E", ' E[E["A"] = i * 2] = "A";\n E[E["B"] = E.A + 1] = "B";') + " r.push(E.A, E.B, Object.keys(E).length); }", [("v", "__s(r)")]),
+        ("sibling-functions", "function f1() { enum E { A = 1 } return [E.A, Object.keys(E).length]; }\nfunction f2() { enum E { B = 2 } return [E.B, (E as any).A, Object.keys(E).length]; }",
+         "function f1() { " + IIFE("E", ' E[E["A"] = 1] = "A";') + " return [E.A, Object.keys(E).length]; }\nfunction f2() { " + IIFE("E", ' E[E["B"] = 2] = "B";') + " return [E.B, E.A, Object.keys(E).length]; }", [("v", "__s([f1(), f2(), f1()])")]),
+        ("nested-block-after-sibling", "var r: any[] = [];\n{ { enum E { A = 1 } r.push(E.A); } enum E { Z = 9 } r.push(E.Z, (E as any).A, Object.keys(E).length); }",
+         "var r = [];\n{ { " + IIFE("E", ' E[E["A"] = 1] = "A";') + " r.push(E.A); } " + IIFE("E", ' E[E["Z"] = 9] = "Z";') + " r.push(E.Z, E.A, Object.keys(E).length); }", [("v", "__s(r)")]),
+    ]
     for name, ts, js, obs in extras:
         o3 = [(o[0], o[1], o[2] if len(o) > 2 else o[1]) for o in obs]
         out.append(("enumx:" + name, program(ts, [(n, t) for n, t, _ in o3]), program(js, [(n, j) for n, _, j in o3]), [n for n, _, _ in o3], {"group": "enumx", "name": name}))
@@ -509,6 +526,20 @@ def ns_items(tier):
         ("this-in-ns-fn", "namespace N { export const a = 1; export function f(this: any) { return this === N; } }",
          "var N;\n(function (N) {\n N.a = 1;\n function f() { return this === N; }\n N.f = f;\n})(N || (N = {}));",
          [("v", "__s([N.f(), (0, N.f).call(5)])")]),
+    ]
+    extras += [
+        ("sibling-namespaces-local-namespace", "namespace N1 { namespace U { export const v = 1; } export const a = U.v; }\nnamespace N2 { namespace U { export const v = 2; export const w = 3; } export const a = U.v + U.w; }",
+         "var N1;\n(function (N1) {\n let U;\n (function (U) { U.v = 1; })(U || (U = {}));\n N1.a = U.v;\n})(N1 || (N1 = {}));\nvar N2;\n(function (N2) {\n let U;\n (function (U) { U.v = 2; U.w = 3; })(U || (U = {}));\n N2.a = U.v + U.w;\n})(N2 || (N2 = {}));",
+         [("v", "__s([N1.a, N2.a, Object.keys(N1), Object.keys(N2)])")]),
+        ("sibling-namespaces-local-enum", "namespace N1 { enum Mode { On = 1 } export const a = Mode.On; export const k = Object.keys(Mode).length; }\nnamespace N2 { enum Mode { Off = 4, Auto } export const a = Mode.Auto; export const k = Object.keys(Mode).length; }",
+         "var N1;\n(function (N1) {\n let Mode;\n (function (Mode) { Mode[Mode[\"On\"] = 1] = \"On\"; })(Mode || (Mode = {}));\n N1.a = Mode.On;\n N1.k = Object.keys(Mode).length;\n})(N1 || (N1 = {}));\nvar N2;\n(function (N2) {\n let Mode;\n (function (Mode) { Mode[Mode[\"Off\"] = 4] = \"Off\"; Mode[Mode[\"Auto\"] = 5] = \"Auto\"; })(Mode || (Mode = {}));\n N2.a = Mode.Auto;\n N2.k = Object.keys(Mode).length;\n})(N2 || (N2 = {}));",
+         [("v", "__s([N1.a, N1.k, N2.a, N2.k])")]),
+        ("merged-blocks-each-with-local-namespace", "namespace N { namespace L { export const v = 1; } export const a = L.v; }\nnamespace N { namespace L { export const v = 10; } export const b = L.v; }",
+         "var N;\n(function (N) {\n let L;\n (function (L) { L.v = 1; })(L || (L = {}));\n N.a = L.v;\n})(N || (N = {}));\n(function (N) {\n let L;\n (function (L) { L.v = 10; })(L || (L = {}));\n N.b = L.v;\n})(N || (N = {}));",
+         [("v", "__s([N.a, N.b, Object.keys(N).sort()])")]),
+        ("exported-nested-twice-in-siblings", "namespace P { export namespace Q { export const v = 1; } }\nnamespace R { export namespace Q { export const v = 2; } }",
+         "var P;\n(function (P) {\n let Q;\n (function (Q) { Q.v = 1; })(Q = P.Q || (P.Q = {}));\n})(P || (P = {}));\nvar R;\n(function (R) {\n let Q;\n (function (Q) { Q.v = 2; })(Q = R.Q || (R.Q = {}));\n})(R || (R = {}));",
+         [("v", "__s([P.Q.v, R.Q.v, P.Q === R.Q])")]),
     ]
     for name, ts, js, obs in extras:
         o3 = [(o[0], o[1], o[2] if len(o) > 2 else o[1]) for o in obs]
